@@ -1063,9 +1063,12 @@ func (ex *Exec) loopHead(fr *Frame, h *ssa.BasicBlock, in *State, back map[[2]in
 			}
 		}
 		srt, ok := ex.heapSrt[n]
-		pre, ok2 := in.heap[n]
-		if !inv || !ok || !ok2 {
+		if !inv || !ok {
 			continue
+		}
+		pre, ok2 := in.heap[n]
+		if !ok2 {
+			pre = Sym(n+"@0", srt)
 		}
 		_, es := srt.splitArr()
 		cur := pre
